@@ -140,6 +140,19 @@ let dispatch (cmd : Stdlib.String.t) (args : sx list) : unit =
   | "cli_parse", [which; argv] ->
     let spec = (match int_of which with 0 -> tar_cli | 1 -> disk_cli | 2 -> nl_cli | 3 -> prettier_cli | 4 -> lst2bas_cli | _ -> bas2lst_cli) in
     pi (match parse spec (list_of zs_of argv) with PHelp -> 0 | PError -> 1 | PUnmodelled -> 2 | POk (_, _) -> 3)
+  | "py_find", [pat; l; st] -> popt pi (match find_sub (zs_of pat) (zs_of l) (nat_of_int (int_of st)) with Some n -> Some (int_of_nat n) | None -> None)
+  | "py_slice", [i; j; l] -> pzs (slice (nat_of_int (int_of i)) (nat_of_int (int_of j)) (zs_of l))
+  | "py_splice", [i; j; v; l] -> pzs (splice (nat_of_int (int_of i)) (nat_of_int (int_of j)) (zs_of v) (zs_of l))
+  | "py_rstrip", [l] -> pzs (rstrip_py (zs_of l))
+  | "py_strip", [l] -> pzs (strip_py (zs_of l))
+  | "py_upper", [l] -> pzs (upper_ascii (zs_of l))
+  | "py_dec", [n] -> pzs (dec (z_of n))
+  | "py_undec", [l] -> pz (undec (take_digits (zs_of l)))
+  | "py_basename", [l] -> pzs (basename (zs_of l))
+  | "py_dirname", [l] -> pzs (dirname (zs_of l))
+  | "py_join", [a; b] -> pzs (path_join (zs_of a) (zs_of b))
+  | "py_isspace", [l] -> plist pbool (List.map is_space_py (zs_of l))
+  | "py_ljust", [w; l] -> pzs (ljust (z_of w) (zs_of l))
   | _ -> failwith ("unknown command " ^ cmd)
 
 let () =
